@@ -53,15 +53,12 @@ def run_cfg_tables(cfg):
     return m, tables_of(m)
 
 
-def guarded(fn):
+def _guard(fn, payload):
     """implementation exceptions are C16's business: report them as status, not as violations of the other properties"""
-    def w(payload):
-        try:
-            return fn(payload)
-        except Exception as e:
-            return {"status": "exception", "exc": sim.exc_info(e), "cfg": payload.get("cfg") if isinstance(payload, dict) else None, "violations": []}
-    w.__name__ = fn.__name__
-    return w
+    try:
+        return fn(payload)
+    except Exception as e:
+        return {"status": "exception", "exc": sim.exc_info(e), "cfg": payload.get("cfg") if isinstance(payload, dict) else None, "violations": []}
 
 
 # ------------------------------------------------------------------------------------------
@@ -107,7 +104,8 @@ def _c09(payload):
     return {"status": "ok", "violations": viol, "steps": n_steps_total, "partitions": len(ks_list)}
 
 
-worker_C09 = guarded(_c09)
+def worker_C09(payload):
+    return _guard(_c09, payload)
 
 
 def compositions(n):
@@ -146,6 +144,10 @@ def _c08(payload):
         off = int((pk - start).days)
         hstep = int(fin0[k][3])
         c1 = copy.deepcopy(cfg); c1["start"] = pk.strftime("%Y/%m/%d")
+        if c1.get("co2") and c1["co2"].get("constant_conc") and not c1["co2"].get("current_concentration"):
+            # "constant concentration" without a value means the concentration of the run's FIRST year: to give the
+            # fresh run the same input, state that value explicitly
+            c1["co2"]["current_concentration"] = float(m0.co2_concentration.current_concentration)
         if c1.get("gw") and c1["gw"].get("method") == "Constant" and c1["gw"].get("dates"):
             c1["gw"]["dates"] = [c1["start"]]
         m1 = sim.build_model(c1); m1._initialize()
@@ -180,7 +182,8 @@ def _c08(payload):
     return {"status": "ok", "violations": viol, "pairs": pairs}
 
 
-worker_C08 = guarded(_c08)
+def worker_C08(payload):
+    return _guard(_c08, payload)
 
 
 # ------------------------------------------------------------------------------------------
@@ -221,7 +224,8 @@ def _c10(payload):
     return {"status": "ok", "violations": viol, "digest": digest}
 
 
-worker_C10 = guarded(_c10)
+def worker_C10(payload):
+    return _guard(_c10, payload)
 
 
 def digest_in_subprocess(cfg, hashseed):
@@ -282,7 +286,8 @@ def _c11(payload):
     return {"status": "ok", "violations": viol}
 
 
-worker_C11 = guarded(_c11)
+def worker_C11(payload):
+    return _guard(_c11, payload)
 
 
 # ------------------------------------------------------------------------------------------
@@ -366,6 +371,10 @@ def _c12(payload):
                     if season_after != season_before and idx == season_after:
                         fp0[k] = fp[k]
                         continue
+                if k == "co2" and season_after != season_before:
+                    # the CO2 adjustment of a season start (current concentration of the season's year)
+                    fp0[k] = fp[k]
+                    continue
                 viol.append(V("C12:changed:%s" % k.split("[")[0], "%s changed during the step(s) starting at step %d" % (k, tsc), step=tsc, what_changed=k))
                 fp0[k] = fp[k]
         if len(viol) > 3:
@@ -375,7 +384,8 @@ def _c12(payload):
     return {"status": "ok", "violations": viol, "steps": steps}
 
 
-worker_C12 = guarded(_c12)
+def worker_C12(payload):
+    return _guard(_c12, payload)
 
 
 # ------------------------------------------------------------------------------------------
@@ -468,7 +478,8 @@ def _c14(payload):
     return {"status": "ok", "violations": viol, "checks": checks, "calendar_days": calendar_days}
 
 
-worker_C14 = guarded(_c14)
+def worker_C14(payload):
+    return _guard(_c14, payload)
 
 
 # ------------------------------------------------------------------------------------------
@@ -534,7 +545,8 @@ def _c15(payload):
     return {"status": "ok", "violations": viol, "checks": checks}
 
 
-worker_C15 = guarded(_c15)
+def worker_C15(payload):
+    return _guard(_c15, payload)
 
 
 # ------------------------------------------------------------------------------------------
@@ -670,7 +682,8 @@ def _c20(payload):
     return {"status": "ok", "violations": viol, "checks": checks}
 
 
-worker_C20 = guarded(_c20)
+def worker_C20(payload):
+    return _guard(_c20, payload)
 
 
 # ------------------------------------------------------------------------------------------
@@ -769,4 +782,5 @@ def _c18(payload):
     return {"status": "ok", "violations": viol, "ncomp": n, "zmax": zmax, "deepened": bool(n != len(soil_user.profile) or float(zbot[-1]) > float(np.sum(soil_user.profile["dz"])) + 1e-9)}
 
 
-worker_C18 = guarded(_c18)
+def worker_C18(payload):
+    return _guard(_c18, payload)
